@@ -1784,3 +1784,74 @@ func scenSlowFSM(e *engineA) error {
 	}
 	return e.finish()
 }
+
+func init() { scenarios["transfer-timeout-pending-action"] = scenTransferTimeoutPendingAction }
+
+// scenTransferTimeoutPendingAction (C16): a membership action (promotion of
+// a new node) is pending, a leadership transfer that cannot succeed (its
+// target is down) runs into its timeout, and the action becomes ready while
+// the transfer is in progress. When the transfer has failed the action must
+// be carried out without any further request.
+func scenTransferTimeoutPendingAction(e *engineA) error {
+	e.prof = profiles["transfer"]
+	if err := e.boot(3); err != nil {
+		return err
+	}
+	e.cl.startInfoSampler(e.hb() / 2)
+	l := e.cl.leader()
+	if l == nil {
+		return fmt.Errorf("no leader")
+	}
+	for i := 0; i < 5+e.rng.Intn(10); i++ {
+		e.cl.fsmOp(1, l, "update")
+	}
+	t := e.others(l)[e.rng.Intn(2)]
+	e.rc.emit(&ev.Rec{K: "fault", Op: "transfer-to-a-node-that-is-down-while-a-promotion-is-pending", Nid: t.nid})
+	t.shutdown(30 * time.Second)
+	// node 4 is added (to be promoted) but not running yet
+	if err := e.cl.changeConfig(l, "add(4,promote=true)", func(c *raft.Config) error {
+		return c.AddNonvoter(4, e.cl.addrOf(4), true)
+	}); err != nil {
+		return fmt.Errorf("add: %v", err)
+	}
+	e.ids = append(e.ids, 4)
+	tmo := time.Duration(8+e.rng.Intn(6)) * e.hb()
+	done := make(chan error, 1)
+	go func() { done <- e.cl.transfer(l, t.nid, tmo) }()
+	e.sleepHB(1, 2)
+	if _, err := e.cl.start(4, e.cl.dirOf(4)); err != nil {
+		return err
+	}
+	var terr error
+	select {
+	case terr = <-done:
+	case <-time.After(tmo + 40*e.hb()):
+		terr = fmt.Errorf("transfer did not return")
+	}
+	resumed := false
+	if terr != nil {
+		// no request from now on: the leader has to resume the promotion itself
+		e.rc.emit(&ev.Rec{K: "quiet-begin"})
+		resumed = e.waitFor(30, func() bool {
+			info, ok := l.info(false)
+			return ok && info.Configs.Latest.Nodes[4].Voter
+		})
+		e.rc.emit(&ev.Rec{K: "quiet-end"})
+		info, _ := l.info(false)
+		rec := &ev.Rec{K: "pending-action-after-transfer", Nid: l.nid, Cid: e.cl.cid, Kind: "resumed", Err: terr.Error()}
+		if !resumed {
+			rec.Kind = "stuck"
+			if info.State != raft.Leader {
+				rec.Kind = "leader-changed" // nothing to conclude
+			}
+		}
+		rec.Cfg = cvConfig(info.Configs.Latest)
+		e.rc.emit(rec)
+	}
+	if _, err := e.cl.start(t.nid, t.dir); err != nil {
+		e.rc.emit(&ev.Rec{K: "restart-failed", Cid: e.cl.cid, Nid: t.nid, Err: err.Error()})
+	}
+	e.startClients(2, map[string]int{"update": 3, "read": 1})
+	e.sleepHB(3, 6)
+	return e.finish()
+}
